@@ -31,3 +31,4 @@ def run(prog, rep):
     _rio2.run_set_extent(prog, rep)
     from ..rules import r_pair as _rp17
     _rp17.run_match_tables(prog, rep)
+    r_flow.run_outpair(prog, rep)
